@@ -121,7 +121,7 @@ def mutated_valid(D):
     return '\n'.join(lines)
 
 
-class _Timeout(Exception):
+class _Timeout(BaseException):   # not an Exception: the code under test wraps every Exception into DoctestParseError
     pass
 
 
